@@ -288,12 +288,12 @@ func (rc *rctx) callText(c *call) (string, int) {
 }
 
 var (
-	timeOutWraps  = []string{"", "concat", "coalesce", "case", "cast", "upper", "paren", "isnull", "length", "substr", "cmp", "plus1"}
+	timeOutWraps  = []string{"", "concat", "coalesce", "case", "cast", "upper", "paren", "isnull", "substr", "cmp", "plus1"}
 	randRawWraps  = []string{"", "mod", "neg", "paren", "div"}
 	randExWraps   = []string{"typeof", "notnull", "and0", "mul0", "modlt", "casegt", "between64", "coalesce0"}
 	blobRawWraps  = []string{"", "hex", "lowerhex", "paren"}
 	blobExWraps   = []string{"length", "typeof", "lenhex"}
-	timeCondWraps = []string{"notnull", "lt", "gt", "ne", "lt25"}
+	timeCondWraps = []string{"", "notnull", "lt", "gt", "ne"}
 )
 
 func inList(l []string, s string) bool {
@@ -359,8 +359,6 @@ func (rc *rctx) out(c *call) (string, int) {
 		return "(" + x + ")", m
 	case "isnull":
 		return x + " IS NULL", m
-	case "length":
-		return "length(" + x + ")", m
 	case "substr":
 		return "substr(" + x + ", 1, 7)", m
 	case "cmp":
@@ -415,10 +413,11 @@ func (rc *rctx) cond(c *call) string {
 		return x + " > '2000-01-01'"
 	case "ne":
 		return "b <> " + x
-	case "lt25":
-		return x + " < '2025-01-01'"
+	case "notnull":
+		return x + " IS NOT NULL"
 	}
-	return x + " IS NOT NULL"
+	// default: true under the real clock, false three years earlier
+	return x + " > '2025-01-01'"
 }
 
 // intx renders an integer expression that is always 0.
@@ -437,7 +436,7 @@ func (rc *rctx) intx(c *call) string {
 		return "(length(" + x + ") * 0)"
 	}
 	// 0 or 1 depending on the clock: visible in the row count
-	return "coalesce(" + x + " < '2025-01-01', 0)"
+	return "coalesce(" + x + " > '2025-01-01', 0)"
 }
 
 // ---------------------------------------------------------------------------
@@ -629,7 +628,6 @@ func featApplies(f *featDef, sp *spec) bool {
 	}
 	return strings.Contains(" "+f.kinds+" ", " "+sp.Kind+" ")
 }
-
 
 // positions available per kind
 var kindPos = map[string][]string{
@@ -1312,10 +1310,10 @@ func (rc *rctx) upCond(c *call) string {
 		switch c.Wrap {
 		case "gt":
 			return x + " > '2000-01-01'"
-		case "lt25":
-			return x + " < '2025-01-01'"
+		case "notnull":
+			return x + " IS NOT NULL"
 		}
-		return x + " IS NOT NULL"
+		return x + " > '2025-01-01'"
 	}
 	return rc.cond(c)
 }
@@ -1584,6 +1582,10 @@ func normalize(sp *spec) {
 			}
 		}
 	}
+	if sp.has("trail-comment") && sp.has("semicolon") {
+		// "stmt; -- c": the driver treats the comment as a second, empty statement
+		drop("semicolon")
+	}
 	if sp.has("lead-line-comment") && sp.has("lead-comment") {
 		drop("lead-comment")
 	}
@@ -1689,7 +1691,7 @@ func normalize(sp *spec) {
 			}
 		}
 		if noCols && isTimeFn(c.Fn) && (c.Wrap == "lt" || c.Wrap == "ne") && role == "cond" {
-			c.Wrap = "lt25"
+			c.Wrap = ""
 		}
 		switch c.Fn {
 		case "random":
@@ -1782,4 +1784,118 @@ func (sp *spec) sig() string {
 		return "plain"
 	}
 	return strings.Join(parts, "+")
+}
+
+// systematic returns the one-construct-at-a-time specs: every feature with the
+// plainest call (and alone), every position of every kind, every function in
+// every form, every modifier / format / gap / wrapper.
+func systematic() []*spec {
+	var out []*spec
+	add := func(sp *spec) {
+		normalize(sp)
+		out = append(out, sp)
+	}
+	kinds := []string{"select", "insert", "update", "delete", "upsert", "insert-select", "values"}
+	plain := func(kind string) call {
+		if posRole(defaultPos(kind)) == "cond" {
+			return call{Fn: "date", Form: "now", Pos: defaultPos(kind)}
+		}
+		return call{Fn: "random", Pos: defaultPos(kind)}
+	}
+	for i := range featDefs {
+		f := &featDefs[i]
+		for _, k := range kinds {
+			sp := &spec{Kind: k}
+			if f.item != "" && k != "select" {
+				sp.Ret = 1
+			}
+			if !featApplies(f, sp) {
+				continue
+			}
+			with := sp.clone()
+			with.Feats = []string{f.tag}
+			with.Calls = []call{plain(k)}
+			add(with)
+			alone := sp.clone()
+			alone.Feats = []string{f.tag}
+			add(alone)
+			break
+		}
+	}
+	for _, k := range kinds {
+		seen := map[string]bool{}
+		for _, pos := range kindPos[k] {
+			if seen[pos] {
+				continue
+			}
+			seen[pos] = true
+			for _, c := range []call{{Fn: "random"}, {Fn: "date", Form: "now"}, {Fn: "randomblob", Form: "lit", N: 4, Wrap: "hex"}} {
+				c.Pos = pos
+				for _, ret := range []int{0, 1, 2} {
+					if ret > 0 && (k == "select" || k == "values") {
+						continue
+					}
+					add(&spec{Kind: k, Ret: ret, Calls: []call{c}})
+				}
+			}
+		}
+	}
+	forms := []string{"implicit", "now", "NOW", "Now", "dqnow", "paren", "param", "lit", "col"}
+	for _, fn := range timeFns {
+		for _, form := range forms {
+			if fn == "timediff" {
+				if form == "implicit" {
+					continue
+				}
+				for side := 0; side < 3; side++ {
+					add(&spec{Kind: "select", Calls: []call{{Fn: fn, Form: form, Side: side, Pos: "item"}}})
+				}
+				continue
+			}
+			add(&spec{Kind: "select", Calls: []call{{Fn: fn, Form: form, Fmt: "%Y-%m-%d %H:%M:%S", Pos: "item"}}})
+			add(&spec{Kind: "insert", Calls: []call{{Fn: fn, Form: form, Fmt: "%s", Pos: "value"}}})
+		}
+		for _, g := range gapPool {
+			add(&spec{Kind: "select", Calls: []call{{Fn: fn, Form: "now", Fmt: "%s", Gap: g, Pos: "item"}}})
+		}
+		add(&spec{Kind: "select", Calls: []call{{Fn: fn, Form: "now", Fmt: "%s", Case: 1, Pos: "item"}}})
+		add(&spec{Kind: "select", Calls: []call{{Fn: fn, Form: "now", Fmt: "%s", Case: 2, Pos: "item"}}})
+	}
+	for _, m := range append(append([]string{}, modPool...), rareMods...) {
+		for _, fn := range []string{"date", "datetime", "unixepoch", "strftime"} {
+			add(&spec{Kind: "select", Calls: []call{{Fn: fn, Form: "now", Fmt: "%Y-%m-%d %H:%M:%f", Mods: []string{m}, Pos: "item"}}})
+		}
+	}
+	for _, f := range fmtPool {
+		add(&spec{Kind: "select", Calls: []call{{Fn: "strftime", Form: "now", Fmt: f, Pos: "item"}}})
+		add(&spec{Kind: "select", Calls: []call{{Fn: "strftime", Form: "implicit", Fmt: f, Pos: "item"}}})
+	}
+	for _, w := range timeOutWraps {
+		add(&spec{Kind: "select", Calls: []call{{Fn: "datetime", Form: "now", Wrap: w, Pos: "item"}}})
+	}
+	for _, w := range timeCondWraps {
+		add(&spec{Kind: "select", Calls: []call{{Fn: "datetime", Form: "now", Wrap: w, Pos: "where"}}})
+	}
+	for _, w := range append(append([]string{}, randRawWraps...), randExWraps...) {
+		add(&spec{Kind: "select", Calls: []call{{Fn: "random", Wrap: w, Pos: "item"}}})
+		add(&spec{Kind: "select", Calls: []call{{Fn: "random", Wrap: w, Pos: "where"}}})
+		add(&spec{Kind: "select", Calls: []call{{Fn: "random", Wrap: w, Gap: " ", Pos: "item"}}})
+	}
+	for _, g := range gapPool {
+		add(&spec{Kind: "select", Calls: []call{{Fn: "random", Gap: g, Pos: "item"}}})
+		add(&spec{Kind: "select", Calls: []call{{Fn: "randomblob", Form: "lit", N: 4, Gap: g, Pos: "item"}}})
+	}
+	for _, n := range []int{0, 1, 3, 4, 8, 16} {
+		for _, w := range append(append([]string{}, blobRawWraps...), blobExWraps...) {
+			add(&spec{Kind: "select", Calls: []call{{Fn: "randomblob", Form: "lit", N: n, Wrap: w, Pos: "item"}}})
+		}
+	}
+	for _, form := range []string{"expr", "col"} {
+		add(&spec{Kind: "select", Calls: []call{{Fn: "randomblob", Form: form, N: 4, Pos: "item"}}})
+	}
+	add(&spec{Kind: "select", Calls: []call{{Fn: "random", Case: 1, Pos: "item"}}})
+	add(&spec{Kind: "select", Calls: []call{{Fn: "random", Case: 2, Pos: "item"}}})
+	add(&spec{Kind: "select", Calls: []call{{Fn: "random", Pos: "orderby"}}})
+	add(&spec{Kind: "select"})
+	return out
 }
